@@ -61,6 +61,9 @@ LDLIBS := -lpthread -ldl -lrt
 # per-harness extra objects / link flags
 EXTRA_c07 :=
 LDX_c07 :=
+WRAP_RANDOM := -Wl,--wrap=random,--wrap=srandom,--wrap=rand,--wrap=srand
+EXTRA_c20 := wrap_random.o
+LDX_c20 := $(WRAP_RANDOM)
 
 # generic rule: harness/cNN_*.c(c) -> $(B)/cNN
 define HARNESS_RULE
